@@ -1,8 +1,11 @@
-"""Worker: a sequence of generation calls in ONE process; optionally an audit trace of file effects of the last call.
+"""Worker: a sequence of generation calls in ONE process; optionally an audit trace of file effects of the last call,
+and optionally (cfg["memstate"]) a fingerprint of every in-memory cell before/after each call (workers/memsnap.py).
 
-argv[1] = JSON {"calls": [[runname, compl, basis-or-null], ...], "trace": path-or-null}
+argv[1] = JSON {"calls": [[runname, compl, basis-or-null], ...], "trace": path-or-null, "memstate": path-or-null,
+                "pre_recursionlimit": int-or-null   (what an earlier fitting call at complexity >= 8 would have left)}
 """
 import json, os, sys
+from contextlib import nullcontext
 cfg = json.loads(sys.argv[1])
 events = []
 tracing = [False]
@@ -23,13 +26,28 @@ def hook(ev, args):
 
 sys.addaudithook(hook)
 import esr.generation.duplicate_checker as dc
+mem = None
+if cfg.get("memstate"):
+    sys.path.insert(0, os.path.dirname(os.path.abspath(__file__)))
+    import memsnap
+    mem = []
+if cfg.get("pre_recursionlimit"):
+    sys.setrecursionlimit(int(cfg["pre_recursionlimit"]))
 calls = cfg["calls"]
-for k, (runname, compl, basis) in enumerate(calls):
-    if basis is not None:
-        os.environ["ESR_VERIF_BASIS"] = json.dumps(basis)
-    if k == len(calls) - 1 and cfg.get("trace"):
-        tracing[0] = True
-    dc.main(runname, compl)
-tracing[0] = False
+try:
+    for k, (runname, compl, basis) in enumerate(calls):
+        if basis is not None:
+            os.environ["ESR_VERIF_BASIS"] = json.dumps(basis)
+        last = (k == len(calls) - 1 and bool(cfg.get("trace")))
+        with (memsnap.watch(mem, "esr.generation.duplicate_checker.main", args=[runname, compl], k=k) if mem is not None else nullcontext()):
+            tracing[0] = last
+            try:
+                dc.main(runname, compl)
+            finally:
+                tracing[0] = False
+finally:
+    tracing[0] = False
+    if mem is not None:
+        json.dump(mem, open(cfg["memstate"], "w"))
 if cfg.get("trace"):
     json.dump(events, open(cfg["trace"], "w"))
